@@ -494,8 +494,8 @@ func (e *Exec) iToFX(a Int) Float {
 		return Float{Sym: "(op_i2f " + iConv(a, 64, a.Signed).T() + ")"}
 	}
 	var r string
-	if a.RI != "" && a.Off == 0 {
-		r = "(to_real " + a.RI + ")"
+	if rf := riFull(a); rf != "" {
+		r = "(to_real " + rf + ")"
 	} else if a.Signed {
 		t := a.T()
 		r = fmt.Sprintf("(to_real (ite (bvslt %s %s) (- (bv2int %s) %s) (bv2int %s)))", t, bvLit(a.W, 0), t, new(big.Int).Lsh(big.NewInt(1), uint(a.W)).String(), t)
@@ -510,9 +510,12 @@ func (e *Exec) iToFX(a Int) Float {
 		small = bAnd(small, iCmp(">=", a, iNeg(lim)))
 	}
 	if e.provable(small) {
-		ri := a.RI
-		if a.Off != 0 {
-			ri = ""
+		ri := riFull(a)
+		if ri != "" && a.Off != 0 {
+			n := e.fresh("rk")
+			e.declare(n, "Int")
+			e.sol.Send("(assert (= " + n + " " + ri + "))")
+			ri = n
 		}
 		if ri == "" {
 			n := e.fresh("rk")
@@ -600,8 +603,8 @@ func (e *Exec) realPrim(name string, args []Value) (Value, bool) {
 		if i.IsC {
 			return RealV{IsC: true, C: new(big.Rat).SetInt64(i.sval())}, true
 		}
-		if i.RI != "" && i.Off == 0 {
-			return RealV{Sym: "(to_real " + i.RI + ")"}, true
+		if rf := riFull(i); rf != "" {
+			return RealV{Sym: "(to_real " + rf + ")"}, true
 		}
 		t := i.T()
 		return RealV{Sym: fmt.Sprintf("(to_real (ite (bvslt %s %s) (- (bv2int %s) %s) (bv2int %s)))", t, bvLit(i.W, 0), t, new(big.Int).Lsh(big.NewInt(1), uint(i.W)).String(), t)}, true
